@@ -86,6 +86,8 @@ CheckEvent(e) ==
                Verdict("C12", e, "survivors do not keep index/value or wrong nodes removed/added by " \o e.op.op, sig \o "/effect"))
     /\ Require(~(e.res = "ok" /\ Inserting(e)) \/ e.ret \notin Occ(pre),
                Verdict("C12", e, "returned index was already occupied", sig \o "/retocc"))
+    /\ Require(~preOK \/ e.res # "panic" \/ m.res = "panic",
+               Verdict("C12", e, "operation panicked where its documentation promises a result (ok or an error value): " \o e.op.op, sig \o "/panic"))
     /\ CheckAcc(e, post)
     /\ Require(~preOK \/ e.res = m.res, Drift(e, "result " \o e.res \o " but model " \o m.res \o " for " \o e.op.op))
     /\ Require(e.exp.res = "none" \/ ~Inserting(e) \/ e.res # "ok" \/ e.exp.ret = e.ret,
